@@ -3,7 +3,7 @@
     panic-site table, and the corollaries for the stages other properties model (C11 schema extensions, C13
     imports, C12 runtime documents / loader, C10 schema declarations). *)
 From V Require Import Base.Util Gql.Ast Peg.Peg Gen.C07_grammar_gen C07.Builder C07.Model.
-From V Require Import C08.Model C08.Spec C08.SiteType Gen.C08_sites_gen C08.Sites C08.ProofsRender C08.ProofsEscape C08.Shape C08.ProofsShape C08.ProofsMerge C08.ImportsCost C08.Proofs.
+From V Require Import C08.Model C08.Spec C08.SiteType Gen.C08_sites_gen C08.Sites C08.ProofsRender C08.ProofsEscape C08.Shape C08.ProofsShape C08.ProofsMerge C08.ImportsCost C08.ProofsVisitor C08.Proofs.
 From V Require C07.Fuel C11.Properties C12.Properties C13.Properties.
 Local Open Scope N_scope.
 
@@ -135,3 +135,16 @@ Theorem C08_imports_linear : forall st root_path root,
   (snd (resolve_imports_c st root_path root) <= length st)%nat.
 Proof. exact imports_linear. Qed.
 Print Assumptions C08_imports_linear.
+
+(** the type printer after a passing check, first family of lookups: selection_set_visitor.rs
+    [fragment_definitions.get(name).expect("Type system error")] (C01.Model.visit_vars) never fails on a document
+    C03's checker model accepts over a well-formed schema -- every definition, spread or not, every nested
+    selection set (the guard [spreads_ok] is executable and passes to sub-selections: spreads_ok_sub) *)
+Theorem C08_visitor_fragments_defined : forall S D,
+  C03.Spec.schema_wf S = true -> C03.Model.check_operation_document S D = [] ->
+  frags_closed (C01.Model.frag_defs D) = true /\
+  (forall o, In o (C03.Spec.doc_ops D) -> spreads_ok (C01.Model.frag_defs D) (selset_sels (op_sel o)) = true) /\
+  (forall sels, spreads_ok (C01.Model.frag_defs D) sels = true ->
+     forall fuel st, C01.Model.visit_vars fuel (C01.Model.frag_defs D) sels st <> C01.Model.Err C01.Model.ETypeSystem).
+Proof. exact visitor_fragments_defined. Qed.
+Print Assumptions C08_visitor_fragments_defined.
